@@ -525,7 +525,12 @@ func (p *pep440Extension) compare(e extension) int {
 		n = len(qv.num)
 	}
 	for i := 0; i < n; i++ {
-		s := sgnv(pv.getNum(i), qv.getNum(i))
+		n1, n2 := pv.getNum(i), qv.getNum(i)
+		if n1 == wildcard && n2 == wildcard {
+			// Nothing after a wildcard is relevant, as in canon.
+			return 0
+		}
+		s := sgnv(n1, n2)
 		if s != 0 {
 			return s
 		}
